@@ -2,7 +2,6 @@
 package c12
 
 import (
-	"fmt"
 	"testing"
 
 	"pgregory.net/rapid"
@@ -17,10 +16,6 @@ import (
 type Case struct {
 	Set   *ymodel.Set `json:"set"`
 	Order []int       `json:"order,omitempty"`
-	// Older: an older revision of this module of the set (same namespace and prefix, other content) is loaded
-	// too, first or last; nothing refers to it.
-	Older      string `json:"older_revision_of,omitempty"`
-	OlderFirst bool   `json:"older_first,omitempty"`
 }
 
 func check(c Case) (o ev.Outcome) {
@@ -29,13 +24,7 @@ func check(c Case) (o ev.Outcome) {
 		return
 	}
 	srcs := schema.Sources(c.Set, c.Order)
-	if m := c.Set.Find(c.Older); m != nil && !m.IsSub && len(m.Revisions) > 0 {
-		old := ymodel.Source{Name: m.Name + "@2019-05-05.yang", Text: fmt.Sprintf("module %s {\n  namespace %s;\n  prefix %s;\n  revision 2019-05-05;\n  container old-only { leaf x { type string; } }\n}\n", m.Name, ymodel.Q(m.Namespace), m.Prefix)}
-		if c.OlderFirst {
-			srcs = append([]ymodel.Source{old}, srcs...)
-		} else {
-			srcs = append(srcs, old)
-		}
+	if c.Set.OlderText() != nil {
 		o.Class("older-revision-also-loaded")
 	}
 	o.Sample = map[string]any{"order": c.Order, "sources": srcs}
@@ -103,17 +92,6 @@ func gen(t *rapid.T) Case {
 	set, _ := schema.Generate(t, o)
 	schema.AddAugments(t, set, 0, 3)
 	c := Case{Set: set}
-	if rapid.IntRange(0, 3).Draw(t, "older-revision") == 0 {
-		var mods []*ymodel.Module
-		for _, m := range set.Modules {
-			if !m.IsSub {
-				mods = append(mods, m)
-			}
-		}
-		m := mods[rapid.IntRange(0, len(mods)-1).Draw(t, "older-of")]
-		m.Revisions = []string{"2021-12-31"}
-		c.Older, c.OlderFirst = m.Name, rapid.Bool().Draw(t, "older-first")
-	}
 	if rapid.Bool().Draw(t, "permute") {
 		c.Order = schema.Order(t, len(set.Modules))
 	}
@@ -124,7 +102,7 @@ func TestCheck(t *testing.T) {
 	ev.Run(t, ev.Spec[Case]{
 		ID:    "C12",
 		Level: "exploration",
-		Rule: "module sets from the schema model with explicit config statements at random depths of the data tree (never inside rpc/action/notification; 'true' only where no enclosing node says false; groupings contain only 'false' and groupings with config are not used inside operations), combined with uses across modules and submodules, augments (also into config-false subtrees, choices and cases, rpc input/output), submodule content, choice/case and rpc/action/notification; in a quarter of the sets an older revision of one of the modules (same namespace, other content, referred to by nothing) is loaded as well, first or last. " +
+		Rule: "module sets from the schema model with explicit config statements at random depths of the data tree (never inside rpc/action/notification; 'true' only where no enclosing node says false; groupings contain only 'false' and groupings with config are not used inside operations), combined with uses across modules and submodules, augments (also into config-false subtrees, choices and cases, rpc input/output), submodule content, choice/case and rpc/action/notification; in a fifth of the sets an older revision of one of the modules (same namespace, other content, referred to by nothing) is loaded as well, first or last. " +
 			"Oracle: for every node of every module tree ReadOnly(), Namespace().Name and InstantiatingModule() equal the reference attributes computed on the expanded model (nearest explicit config on the path or inside an output; module whose text placed the node: user of a grouping, augmenter, owner of a submodule). " +
 			"Non-trivial = the set has an explicit config or an rpc/action output, and nodes that were copied (uses/augment) or written in a submodule; distinct by (set, order)",
 		Assumptions: []string{
